@@ -11,6 +11,7 @@ import (
 	"crypto/x509"
 	"encoding/json"
 	"fmt"
+	"net"
 	"net/http"
 	"os"
 	"strings"
@@ -33,6 +34,9 @@ func init() {
 			"(S0: alpha.test + 127.0.0.1 signed by the system root; S1: alpha.test + 127.0.0.1 signed by CA1; S2: beta.test signed by CA2; legacy: S1's certificate but TLS <= 1.1 only), " +
 			"with the supplied callback accepting and (a second case) rejecting; expected outcome from x509.Verify on the independently built expected pool; " +
 			"quick = a PRNG-chosen tenth of the (point, listener, verdict) cases, thorough = all of them. " +
+			"In addition one HTTPS GET per point of that projection goes through the *http.Client returned by TLSClient (PRNG-chosen listener and verdict; quick = a PRNG-chosen tenth of the points), judged like a handshake (signatures end in @TLSClient). " +
+			"Server-name vocabulary (a separate sub-workload, not a lattice dimension): " + fmt.Sprint(len(nameVariants)) + " spellings a normalisation would change (upper case, trailing dot, port, IPv4/IPv6 literal, blanks, IDN/punycode, wildcard, single label) " +
+			"x insecure x {no identity, loaded EC pair} x {no roots, LoadedCA, pool} = " + fmt.Sprint(len(variantPoints())) + " points, inspected through all three entry points, plus a handshake by either route against S1 where CA1 is trusted. " +
 			"non-trivial = a lattice point with at least one option set (distinct by lattice index), and each executed handshake (distinct by lattice index x listener x verdict)",
 		Assumptions: []string{
 			"a key supplied without any certificate is not judged for the error (nothing to present, no identity is dropped); if a config is returned it must carry no client certificate",
@@ -40,11 +44,12 @@ func init() {
 			"the CA file is ignored when LoadedCA is set and LoadedCertificate/LoadedKey are ignored when Certificate is set, as the doc comments say; Key without Certificate is ignored",
 			"an InsecureSkipVerify request that is not honoured (stricter than asked) is recorded as a class, not as a violation: the statement only forbids skipping when not requested or when a server name is given",
 			"'unreadable' files are modelled by a path that does not exist (the workers run as root, permission bits do not block reads)",
-			"Go's system root store is replaced, per worker process, by one minted CA (SSL_CERT_FILE / SSL_CERT_DIR), so that 'the system pool' is a known set; evidence note system_pool_pinned counts the workers where that took effect",
+			"Go's system root store is replaced, per worker process, by one minted CA (SSL_CERT_FILE / SSL_CERT_DIR), so that 'the system pool' is a known set; evidence note system_pool_pinned counts the workers where that took effect. A worker where it did not take effect evaluates nothing: the run then stays below the coverage floor (the whole lattice) and ends INCONCLUSIVE",
+			"the HTTPS GET is answered by the listeners with a minimal '204' response; a GET that fails although both ends completed the handshake is not judged (the statement is about the TLS configuration)",
 			"the handshake oracle trusts crypto/x509 Verify and crypto/tls of the Go toolchain; the client dials with tls.Dial, which fills an empty ServerName from the dialled host (127.0.0.1), as net/http does",
 			"a handshake in which either side hits the 15 s watchdog deadline is retried once and then counted as class hs-watchdog; it is never judged",
 		},
-		MinNontrivial: 100000,
+		MinNontrivial: latticeSize() - 1, // exhaustive: every non-trivial point of the lattice must have been inspected
 		QuickShards:   8,
 		Run:           run,
 		Replay:        replay,
@@ -174,6 +179,78 @@ type Case struct {
 	Entry  string `json:"entry,omitempty"`  // TLSClientAuth (default) | TLSTransport | TLSClient
 	Server string `json:"server,omitempty"` // "" = inspection only | s0 | s1 | s2 | legacy
 	Reject bool   `json:"reject,omitempty"` // handshake: the supplied callback rejects the peer
+	Via    string `json:"via,omitempty"`    // handshake route: "" = TLSClientAuth + tls.Dial | TLSClient = HTTPS GET through the returned *http.Client
+	// NameVariant marks a point of the server-name sub-workload: Point.ServerName is free text (not a lattice value)
+	NameVariant bool `json:"name_variant,omitempty"`
+}
+
+// ---- server-name vocabulary (a separate small sub-workload, NOT a lattice dimension) ----
+
+// nameVariants are server names whose spelling a well-meaning normalisation would change (letter case,
+// trailing dot, port, IP literal, blanks, IDN); "carries the given server name unchanged" is owed for each.
+var nameVariants = []string{"Alpha.Test", "ALPHA.TEST", "alpha.test.", "alpha.test:443", "127.0.0.1", "127.0.0.1:8443", "::1", "[::1]", "[::1]:443",
+	" alpha.test", "alpha.test ", "b\u00fccher.test", "xn--bcher-kva.test", "*.test", "alpha..test", "a"}
+
+// nameClass names the spelling feature of a server name ("" = a plain lower-case DNS name, as in the lattice).
+func nameClass(n string) string {
+	if n == "" {
+		return ""
+	}
+	if h, _, err := net.SplitHostPort(n); err == nil {
+		if net.ParseIP(h) != nil {
+			return "ip-literal-with-port"
+		}
+		return "with-port"
+	}
+	ldh := true
+	for i := 0; i < len(n); i++ {
+		b := n[i]
+		if b >= 0x80 {
+			return "non-ascii"
+		}
+		if !('a' <= b && b <= 'z' || 'A' <= b && b <= 'Z' || '0' <= b && b <= '9' || b == '-' || b == '.') {
+			ldh = false
+		}
+	}
+	switch {
+	case net.ParseIP(strings.Trim(n, "[]")) != nil:
+		return "ip-literal"
+	case strings.TrimSpace(n) != n:
+		return "surrounding-blank"
+	case !ldh || strings.Contains(n, "..") || strings.HasPrefix(n, "."):
+		return "other-spelling"
+	case strings.HasSuffix(n, "."):
+		return "trailing-dot"
+	case strings.ToLower(n) != n:
+		return "upper-case"
+	case strings.HasPrefix(n, "xn--") || strings.Contains(n, ".xn--"):
+		return "punycode"
+	case !strings.Contains(n, "."):
+		return "single-label"
+	}
+	return ""
+}
+
+// variantPoints is the sub-lattice every name variant is combined with: insecure x identity x roots.
+func variantPoints() []Point {
+	var out []Point
+	for _, n := range nameVariants {
+		for _, ins := range []bool{false, true} {
+			for _, id := range []string{"", "ec"} {
+				for _, roots := range []string{"", "loaded_ca", "pool"} {
+					p := Point{ServerName: n, Insecure: ins, LoadedCert: id, LoadedKey: id}
+					switch roots {
+					case "loaded_ca":
+						p.LoadedCA = "ca1"
+					case "pool":
+						p.Pool = "ca2"
+					}
+					out = append(out, p)
+				}
+			}
+		}
+	}
+	return out
 }
 
 // ---- building the options of a point ----
@@ -477,7 +554,11 @@ func inspect(p Point, cfg *tls.Config, err error, h *handles, mat *material, ent
 	}
 	// carried unchanged
 	if cfg.ServerName != p.ServerName {
-		add("server-name-changed", "ServerName = %q, given %q", cfg.ServerName, p.ServerName)
+		sig := "server-name-changed"
+		if nc := nameClass(p.ServerName); nc != "" {
+			sig += "/" + nc
+		}
+		add(sig, "ServerName = %q, given %q", cfg.ServerName, p.ServerName)
 	}
 	switch {
 	case p.Callback == "" && cfg.VerifyPeerCertificate != nil:
@@ -628,7 +709,7 @@ func (w *worker) inspectPoint(p Point, entry string) (ok bool) {
 			}
 			return false
 		})
-		m.Violate(sig, detail, &Case{Point: &mp, Entry: entry})
+		m.Violate(sig, detail, &Case{Point: &mp, Entry: entry, NameVariant: nameClass(mp.ServerName) != ""})
 	}
 	if m.WantSample() {
 		m.Sample(map[string]interface{}{"case": &Case{Point: &p, Entry: entry}, "error": fmt.Sprint(err), "findings": len(fs), "expected": describe(expect(p))})
@@ -667,6 +748,7 @@ var serverKinds = []string{"s0", "s1", "s2", "legacy"}
 func (w *worker) sweep(from, to, step int, handshakes bool) {
 	m := w.m
 	r := m.Rand("handshake-sample")
+	rg := m.Rand("https-get-sample") // a stream of its own: the handshake sample stays what it was
 	batch := 0
 	for k := from; k < to; k += step {
 		if batch%1000 == 0 {
@@ -700,9 +782,20 @@ func (w *worker) sweep(from, to, step int, handshakes bool) {
 					}
 					did = true
 					m.Begin(&Case{Point: &p, Server: sk, Reject: reject})
-					w.handshake(p, sk, reject)
+					w.handshake(p, sk, reject, "")
 					m.NT(fmt.Sprintf("hs|%d|%s|%v", idx, sk, reject))
 				}
+			}
+			// one HTTPS GET through the *http.Client TLSClient returns, against one PRNG-chosen listener
+			// (quick: for a PRNG-chosen tenth of the points, thorough: for every point of the projection)
+			gsk := serverKinds[rg.Intn(len(serverKinds))]
+			greject := p.Callback != "" && rg.Intn(2) == 0
+			m.Note("https_get_points_in_projection", 1)
+			if !m.Quick() || rg.Intn(10) == 0 {
+				did = true
+				m.Begin(&Case{Point: &p, Server: gsk, Reject: greject, Via: "TLSClient"})
+				w.handshake(p, gsk, greject, "TLSClient")
+				m.NT(fmt.Sprintf("get|%d|%s|%v", idx, gsk, greject))
 			}
 			if did {
 				batch = 0 // re-mark the inspection batch after a handshake marker
@@ -721,7 +814,13 @@ func run(m *mon.M) {
 	if sysPinned {
 		m.Note("system_pool_pinned", 1)
 	} else {
+		// Without a pinned store "the system pool" is an unknown set (on a host whose real store is empty a
+		// system-derived pool even compares equal to an empty one): nothing can be judged soundly. The worker
+		// evaluates NOTHING, so that the merged run stays below the coverage floor (= the whole lattice) and is
+		// reported INCONCLUSIVE instead of "held".
 		m.Note("system_pool_not_pinned", 1)
+		fmt.Fprintln(os.Stderr, "C18: the system root store could not be pinned (SSL_CERT_FILE/SSL_CERT_DIR had no effect): nothing is evaluated, the run is inconclusive")
+		return
 	}
 	w := &worker{m: m, mat: mat}
 	if err := w.startServers(); err != nil {
@@ -734,6 +833,34 @@ func run(m *mon.M) {
 		step = 1
 	}
 	w.sweep(m.Shard, latticeSize(), step, true)
+	w.nameVariantsWorkload(m.Shard, step)
+}
+
+// nameVariantsWorkload inspects every (name variant x insecure x identity x roots) point through the three
+// entry points and runs, for the points that trust CA one, one handshake per route against listener s1
+// (alpha.test + 127.0.0.1, signed by CA one): 192 points in all, shared out over the workers. It runs after
+// the lattice sweep.
+func (w *worker) nameVariantsWorkload(shard, step int) {
+	m := w.m
+	for i, p := range variantPoints() {
+		if i%step != shard {
+			continue
+		}
+		p := p
+		m.Begin(&Case{Point: &p, NameVariant: true})
+		ok := w.inspectPoint(p, "TLSClientAuth")
+		w.inspectPoint(p, "TLSTransport")
+		w.inspectPoint(p, "TLSClient")
+		m.NT(fmt.Sprintf("name-variant|%s|%d", p.ServerName, i))
+		m.Class("name-variant:" + nameClass(p.ServerName))
+		if ok && p.LoadedCA == "ca1" {
+			for _, via := range []string{"", "TLSClient"} {
+				m.Begin(&Case{Point: &p, Server: "s1", Via: via, NameVariant: true})
+				w.handshake(p, "s1", false, via)
+				m.NT(fmt.Sprintf("name-variant-hs|%s|%d|%s", p.ServerName, i, via))
+			}
+		}
+	}
 }
 
 func replay(m *mon.M, raw json.RawMessage) {
@@ -748,6 +875,10 @@ func replay(m *mon.M, raw json.RawMessage) {
 		return
 	}
 	defer os.RemoveAll(mat.dir)
+	if !sysPinned {
+		m.Note("system_pool_not_pinned", 1) // nothing is evaluated: the replay reports evaluations=0
+		return
+	}
 	w := &worker{m: m, mat: mat}
 	switch {
 	case c.Range != nil:
@@ -761,7 +892,11 @@ func replay(m *mon.M, raw json.RawMessage) {
 		}
 		w.sweep(c.Range.From, to, step, false)
 	case c.Point != nil:
-		if indexOf(*c.Point) < 0 {
+		probe := *c.Point
+		if c.NameVariant {
+			probe.ServerName = "" // free text in the server-name sub-workload; the other slots are lattice values
+		}
+		if indexOf(probe) < 0 {
 			m.Violate("bad-replay-case", "the point names a slot content that is not part of the lattice", nil)
 			return
 		}
@@ -778,7 +913,7 @@ func replay(m *mon.M, raw json.RawMessage) {
 			return
 		}
 		defer w.stopServers()
-		w.handshake(*c.Point, c.Server, c.Reject)
+		w.handshake(*c.Point, c.Server, c.Reject, c.Via)
 	default:
 		m.Violate("bad-replay-case", "neither point nor range", nil)
 	}
